@@ -10,7 +10,7 @@
 (*                 reduce, solve), api, dress ("int": the supplied values are the small      *)
 (*                 integers of cfg; "float": seeded random floats of the same shape,  *)
 (*                 compared in Python), ok/exc, observed classification and MaxTime   *)
-(*   Solve event:  ok/exc, ts_empty, taxis, obs = per variable [name, len, icv, exov, *)
+(*   Solve event:  ok/exc, ts_empty, taxis (t = k for k >= 1), taxis0 (t[0] = 0), obs = per variable [name, len, icv, exov, *)
 (*                 lagv, integral, vals]  (Booleans by exact float equality in        *)
 (*                 Python; vals = the series as integers when integral)               *)
 (*   property:<clause>  a sentence of C10 is false on the observed outcome            *)
@@ -82,10 +82,12 @@ LagOK(e, s) ==
                  \A k \in 1..s.horizon : (k + 1 <= Len(o.vals) /\ k <= Len(q.vals)) => o.vals[k + 1] = q.vals[k]
 
 TimeOK(e, s, c) ==
-    HasUserT(c.vars) \/
+    HasUserT(c.vars) \/                      \* (a missing t is C10_Lengths, judged before this)
         LET o == ObsOf(e, "t")
-        IN /\ e.taxis
-           /\ Ints(e, o) => \A k \in 0..s.horizon : k + 1 <= Len(o.vals) => o.vals[k + 1] = k
+        IN /\ e.taxis                                  \* t[k] = k for k >= 1
+           /\ "t" \notin ICNames(c) => e.taxis0       \* t[0] = 0 unless an initial condition is stated
+           /\ Ints(e, o) => \A k \in 0..s.horizon :
+                                (k + 1 <= Len(o.vals) /\ (k > 0 \/ "t" \notin ICNames(c))) => o.vals[k + 1] = k
 
 SeriesOK(e, E) ==
     e.dress = "int" => \A n \in DOMAIN E.series : ObsOf(e, n).integral /\ ObsOf(e, n).vals = E.series[n]
